@@ -310,6 +310,23 @@ fn dated_range(
     Some(range_start..=range_end)
 }
 
+/// Check if a range between dates of the year only covers days that don't exist on given year
+/// (eg. "Feb 30" or "Apr 31-Apr 31"). Its bounds would otherwise be moved to the closest valid
+/// days, which are in reverse order and would be handled as a range wrapping to the next year.
+fn is_empty_on_year(start: &ds::Date, end: &ds::Date, year: i32) -> bool {
+    match (start, end) {
+        (
+            ds::Date::Fixed { year: None, month: start_month, day: start_day },
+            ds::Date::Fixed { year: None, month: end_month, day: end_day },
+        ) => {
+            (start_month, start_day) <= (end_month, end_day)
+                && valid_ymd_after(year, (*start_month).into(), (*start_day).into())
+                    > valid_ymd_before(year, (*end_month).into(), (*end_day).into())
+        }
+        _ => false,
+    }
+}
+
 impl DateFilter for ds::MonthdayRange {
     fn filter<L>(&self, date: NaiveDate, _ctx: &Context<L>) -> bool
     where
@@ -346,9 +363,11 @@ impl DateFilter for ds::MonthdayRange {
                 is_open_from_bounds(
                     date,
                     (year - 1..=year + 1)
+                        .filter(|y| !is_empty_on_year(start, end, *y))
                         .filter_map(|y| date_on_year(*start, y, valid_ymd_after))
                         .map(|d| start_offset.apply(d)),
                     (year - 1..=year + 1)
+                        .filter(|y| !is_empty_on_year(start, end, *y))
                         .filter_map(|y| date_on_year(*end, y, valid_ymd_before))
                         .map(|d| end_offset.apply(d)),
                 )
@@ -429,9 +448,11 @@ impl DateFilter for ds::MonthdayRange {
                 Some(next_change_from_bounds(
                     date,
                     (year - 1..=year + 10)
+                        .filter(|y| !is_empty_on_year(start, end, *y))
                         .filter_map(|y| date_on_year(*start, y, valid_ymd_after))
                         .map(|d| start_offset.apply(d)),
                     (year - 1..=year + 10)
+                        .filter(|y| !is_empty_on_year(start, end, *y))
                         .filter_map(|y| date_on_year(*end, y, valid_ymd_before))
                         .map(|d| end_offset.apply(d)),
                 ))
